@@ -137,6 +137,17 @@ def discrete_case(rep, drv, rng, th):
 				same = False
 				bad_eval = 'expected_cost(%s): python %r, model evaluation %r' % (cand, ec, float(unfr(ev['cost'])))
 				rep.count('ssm:eval-mismatch')
+			# expected_holding_cost = the same evaluation with the stockout cost set to 0
+			with warnings.catch_warnings():
+				warnings.simplefilter('ignore')
+				ehc = ssm_serial.expected_holding_cost({j + 1: cand[j] for j in range(N)}, **kw)
+			ev0 = drv.call('ssm', p='0', mu=fr(mu), xlo=int(x_lo), n=int(max(n, max(cand) - x_lo)), stages=stages, fixed=cand)
+			fc0 = forward_cost(cand, h, Ls, 0, ds)
+			if abs(ehc - fc0) > trunc * max(1.0, abs(fc0) / 100):
+				bad.append('expected_holding_cost(%s) = %r but the holding cost of operating those levels is %r' % (cand, ehc, fc0))
+			if not close(ehc, unfr(ev0['cost'])):
+				same = False
+				rep.count('ssm:holding-eval-mismatch')
 		except Exception as e:
 			bad.append('expected_cost raised %s' % err_enum(e))
 	# one stage = newsvendor
